@@ -69,6 +69,16 @@ CLAIMED = {
          'original shared versions are proved to mutate: *_mutates). PARTIAL: heap-level immutability outside the modelled alias sites, history '
          'independence and process-level hash-seed independence are carried by the harness (argument snapshots around every call, repeated calls, '
          'logging on/off, random call prefixes, in-place edits, 2-8 fresh processes with different PYTHONHASHSEED).', '6 C19'),
+ 'C16': ('proof', 'Theorems parse_print_dfa, parse_print_nfa, parse_print_pda, parse_print_tm (+ _raw variants): for every valid automaton whose state '
+         'names are \\w+ and not keywords of the format and whose symbols are printable (single characters of the label classes for PDA/TM), '
+         'parsing the printed text returns an automaton with the same states, alphabets, initial / accepting / halting states and transition '
+         'function (F empty, alphabet empty, isolated states, several labels per edge included). Regexp syntaxes and the simple grammar format: Lean '
+         'reference parsers / printers (Model/RegexpText.lean, Model/CfgText.lean) tied to the ANTLR / regex based implementation by '
+         'correspondence; their round-trip theorems are registered when proved.', '6 C16'),
+ 'C17': ('proof', 'Theorems parseX_ok_valid for the four parsers (no parser ever returns an object violating its class invariant, for EVERY text), '
+         'parseX_builds (the returned automaton is exactly the documented function of the parsed lines: declared or derived state set and alphabets, '
+         'default epsilon / blank, last TM transition wins), rejection theorems (nondeterministic or non-total DFA, undeclared state, no / several '
+         'initial states, repeated declaration, transition with fewer than three words). Rendered layouts and single-fault corruptions are the tie.', '6 C17'),
  'C14': ('proof', 'Theorems product_valid/product_*_lang, complement_*, mapStates_*, noPrefix_*, makeTotal_*, freshState_fresh and the '
          'finite-language helper specs (lang*_spec, wordsOfLength_spec, wordsUpTo_spec). and reachableStates_zero/pos, removeUnreachable_spec, noExtend_spec, reverse_valid, reverse_lang.', '6 C14'),
 }
